@@ -347,9 +347,10 @@ func (f *OrefaFile) ReadDir(n int) ([]fs.DirEntry, error) {
 		return nil, io.EOF
 	}
 
-	end := start + n
-	if end > len(f.dirEntries) {
-		end = len(f.dirEntries)
+	// n may be as large as math.MaxInt: start + n must not overflow.
+	end := len(f.dirEntries)
+	if n < end-start {
+		end = start + n
 	}
 
 	f.dirIndex = end
@@ -424,9 +425,10 @@ func (f *OrefaFile) Readdirnames(n int) (names []string, err error) {
 		return nil, io.EOF
 	}
 
-	end := start + n
-	if end > len(f.dirNames) {
-		end = len(f.dirNames)
+	// n may be as large as math.MaxInt: start + n must not overflow.
+	end := len(f.dirNames)
+	if n < end-start {
+		end = start + n
 	}
 
 	f.dirIndex = end
